@@ -30,8 +30,11 @@ ValidCase(w, s) ==
   /\ s \in {"omitted", "none"} => Nullable(w)
   /\ s \in {"val_nullitem", "val_nullfirst"} => IsList(w) /\ ItemNullable(w)
   /\ s = "empty" => IsList(w)
-Cases == {c \in [w : Wrappers, kind : Kinds, pos : Positions, state : States] :
+\* dflt: the operation declares a default for the variable ($a: Int = 77): when the caller omits the argument the variable
+\* must be ABSENT from the payload so that the server applies that default
+Cases == {c \in [w : Wrappers, kind : Kinds, pos : Positions, state : States, dflt : BOOLEAN] :
             /\ ValidCase(c.w, c.state)
+            /\ c.dflt => (c.pos \in {"var", "sub_var"} /\ c.w \in {"T", "[T!]"} /\ c.kind \in {"int", "enum"})
             /\ IsResult(c.pos) => (c.state # "omitted" /\ c.kind \in {"ser", "native", "raw"})
             /\ c.state = "val_falsy" => c.kind \in {"int", "ser", "raw"}}
 
@@ -93,7 +96,7 @@ Send == stage = "converted" /\ stage' = "sent" /\ UNCHANGED <<c, present, wire, 
 ServerCoerce ==
   /\ stage = "sent" /\ stage' = "coerced"
   \* input coercion wraps a value that is not a list into a list of one item, once per list level
-  /\ delivered' = IF ~present THEN <<"absent">>
+  /\ delivered' = IF ~present THEN (IF c.dflt THEN <<"default">> ELSE <<"absent">>)
                   ELSE IF IsList(c.w) /\ wire[1] \notin {"L", "null"}
                        THEN (IF Nested(c.w) THEN <<"L", <<"L", wire>>>> ELSE <<"L", wire>>)
                        ELSE wire
@@ -103,7 +106,7 @@ Spec == Init /\ [][Next]_vars
 
 \* ---- properties ---------------------------------------------------------------------------------------------------
 Done == stage = "coerced"
-Intended == IF c.state = "omitted" THEN <<"absent">> ELSE WireOf(CallerValue(c.w, c.state))
+Intended == IF c.state = "omitted" THEN (IF c.dflt THEN <<"default">> ELSE <<"absent">>) ELSE WireOf(CallerValue(c.w, c.state))
 DeliveredIsIntended == Done => delivered = Intended
 OmittedAbsent == (Done /\ c.state = "omitted") => ~present
 NoneIsNull == (Done /\ c.state = "none") => (present /\ wire = <<"null">>)
